@@ -179,12 +179,13 @@ type specSummary struct {
 	Items       int                    `json:"work_items"`
 	Paths       int64                  `json:"paths"`
 	Instrs      int64                  `json:"ssa_instructions"`
-	Params      map[string][]int       `json:"enumerated_parameters"`
+	Params      []Grid                 `json:"enumerated_parameters"`
 	Assertions  map[string]*assertStat `json:"assertions"`
 	Twin        string                 `json:"vacuity_twin"`
 	WallS       float64                `json:"wall_s"`
 	Exhaustive  bool                   `json:"full_machine_range"`
 	UnknownFeas int                    `json:"unknown_feasibility_kept"`
+	Infeasible  int                    `json:"infeasible_tuples"`
 }
 
 func seedOf() int {
@@ -212,11 +213,7 @@ func runProperty(prop, tier string, workers int) int {
 	var items []WorkItem
 	twinIdx := map[int]bool{}
 	for _, s := range specs {
-		ps := s.Quick
-		if tier == "thorough" && s.Thorough != nil {
-			ps = s.Thorough
-		}
-		cs := cartesian(ps)
+		cs := s.tuples(tier)
 		for _, p := range cs {
 			items = append(items, WorkItem{Spec: s, Params: p, Idx: len(items)})
 		}
@@ -255,11 +252,7 @@ func runProperty(prop, tier string, workers int) int {
 		s := r.Item.Spec
 		sm := sums[s.Name]
 		if sm == nil {
-			ps := s.Quick
-			if tier == "thorough" && s.Thorough != nil {
-				ps = s.Thorough
-			}
-			sm = &specSummary{Harness: s.Name, Note: s.Note, Params: ps, Assertions: map[string]*assertStat{}, Twin: "not-run", Exhaustive: s.Exhaustive}
+			sm = &specSummary{Harness: s.Name, Note: s.Note, Params: s.grids(tier), Assertions: map[string]*assertStat{}, Twin: "not-run", Exhaustive: s.Exhaustive}
 			sums[s.Name] = sm
 			order = append(order, s.Name)
 		}
@@ -311,7 +304,9 @@ func runProperty(prop, tier string, workers int) int {
 			pb, _ := json.Marshal(r.Item.Params)
 			inconclusive = append(inconclusive, fmt.Sprintf("%s %s: %s", s.Name, pb, firstLine(r.Res.Reason)))
 		}
-		if r.Res.Status == "ok" && r.Res.Reached["end"] == 0 {
+		if r.Res.Status == "ok" && r.Res.Paths == 0 {
+			sm.Infeasible++ // the tuple's preconditions are unsatisfiable (e.g. lengths that cannot be ascending)
+		} else if r.Res.Status == "ok" && r.Res.Reached["end"] == 0 {
 			pb, _ := json.Marshal(r.Item.Params)
 			inconclusive = append(inconclusive, fmt.Sprintf("%s %s: no path reached the end of the harness", s.Name, pb))
 		}
